@@ -7,6 +7,8 @@ import (
 
 	"github.com/advancedclimatesystems/gonnx/internal/zzverif"
 	"github.com/advancedclimatesystems/gonnx/onnx"
+	"github.com/advancedclimatesystems/gonnx/ops"
+	"gorgonia.org/tensor"
 )
 
 func init() {
@@ -58,6 +60,10 @@ func H_C17(v *zzverif.T) {
 	// everything shared between goroutines that run this Model
 	v.ProtectAll("the Model", m)
 	v.ProtectPackageState()
+
+	// another goroutine of the application fills tensors it got from the library's exported helpers: they are its own
+	zzUseExportedHelpers(v)
+	v.AssertNoWrites("C17.exported-helpers-hand-out-private-tensors")
 
 	// loading a further model (here: the same description again, as another goroutine would)
 	var m2 *Model
@@ -211,6 +217,18 @@ func H_C17_race(v *zzverif.T) {
 			}
 		}()
 	}
+	// one more goroutine of the application works on tensors of its own, obtained from exported helpers
+	go func() {
+		defer func() { _ = recover(); done <- true }()
+		for i := 0; i < 50; i++ {
+			z := ops.ZeroTensor(4, 2)
+			o := ops.OnesTensor(z)
+			for j := 0; j < 8; j++ {
+				z.(*tensor.Dense).Set(j, float32(i+j))
+				o.(*tensor.Dense).Set(j, float32(i-j))
+			}
+		}
+	}()
 	// one more goroutine keeps making requests that are refused (missing input, wrong element type)
 	go func() {
 		defer func() { _ = recover(); done <- true }()
@@ -226,7 +244,7 @@ func H_C17_race(v *zzverif.T) {
 			_, _ = m.Run(in)
 		}
 	}()
-	for k := 0; k < G+1; k++ {
+	for k := 0; k < G+2; k++ {
 		<-done
 	}
 	select {
